@@ -118,8 +118,8 @@ def score_limits(rule, m, cfg_rng):
     return L, None
 
 
-def gen_score_profile(rng, L, k, *, max_c=6, max_ballots=8, rational=True):
-    n = wchoice(rng, [(j, w) for j, w in zip(range(1, 8), [1, 3, 5, 6, 5, 3, 1]) if j <= max_c])
+def gen_score_profile(rng, L, k, n, *, max_ballots=8, rational=True):
+    """score ballots respecting the per-candidate limit L and (if not None) the budget k"""
     names, fam = gen_names(rng, n)
     wfam = wchoice(rng, [("ones", 3), ("small", 4), ("mid", 2), ("rat", 2)])
     nb = wchoice(rng, [(0, 1)] + [(j, 4) for j in range(1, max_ballots + 1)])
@@ -129,7 +129,9 @@ def gen_score_profile(rng, L, k, *, max_c=6, max_ballots=8, rational=True):
         sc = {}
         budget = None if k is None else Fraction(k)
         for c in rng.sample(names, rng.randint(1, n)):
-            if rational and rng.random() < 0.15:
+            if sym:
+                v = Fraction(1)
+            elif rational and rng.random() < 0.15:
                 v = Fraction(rng.randint(1, 2 * L), 2)
             else:
                 v = Fraction(rng.randint(1, L))
@@ -138,9 +140,9 @@ def gen_score_profile(rng, L, k, *, max_c=6, max_ballots=8, rational=True):
                 v = min(v, budget)
             if v <= 0:
                 break
-            sc[c] = 1 if sym and L >= 1 and (budget is None or budget >= 1) else v
+            sc[c] = v
             if budget is not None:
-                budget -= sc[c]
+                budget -= v
         if sc:
             ballots.append({"r": None, "w": fs(gen_weight(rng, wfam)), "s": {c: fs(Fraction(v)) for c, v in sc.items()}})
     jp = {"candidates": names, "ballots": ballots}
@@ -155,17 +157,10 @@ def gen_rule_case(rng, rules=ALL_RULES, *, max_c=6, tiebreaks=TIEBREAKS):
     rule = rng.choice(list(rules))
     cfg = {}
     if rule in SCORE_RULES:
-        m_hint = rng.randint(1, 4)
-        L, k = score_limits(rule, m_hint, rng)
-        jp, shape = gen_score_profile(rng, L, k, max_c=max_c)
-        n = len(jp["candidates"])
-        m = min(m_hint, n)
-        if rule in ("Cumulative", "Limited", "BlocPlurality") and m != m_hint:
-            # budgets were generated for m_hint; regenerate against the real m
-            L, k = score_limits(rule, m, rng)
-            jp, shape = gen_score_profile(rng, L, k, max_c=n)
-            n = len(jp["candidates"])
-            m = min(m, n)
+        n = wchoice(rng, [(j, w) for j, w in zip(range(1, 8), [1, 3, 5, 6, 5, 3, 1]) if j <= max_c])
+        m = rng.randint(1, n)
+        L, k = score_limits(rule, m, rng)
+        jp, shape = gen_score_profile(rng, L, k, n)
         tb = rng.choice([None, "random"])
         cfg = {"m": m, "tiebreak": tb}
         if rule in ("GeneralRating",):
@@ -175,7 +170,7 @@ def gen_rule_case(rng, rules=ALL_RULES, *, max_c=6, tiebreaks=TIEBREAKS):
         elif rule == "Limited":
             cfg.update(k=m)
         return {"rule": rule, "kw": cfg, "profile": jp, "shape": shape}
-    allow_ties = rule in TIED_OK and rule not in ("TopTwo",) and rng.random() < 0.5
+    allow_ties = rule in ("Plurality", "SNTV", "Borda", "RandomDictator", "BoostedRandomDictator") and rng.random() < 0.5
     if rule == "PluralityVeto":
         allow_ties = rng.random() < 0.3
     int_w = rule == "PluralityVeto"
